@@ -141,7 +141,15 @@ def rest_of_c12(cx):
         cx.guard(inst, b, sinks, [[r"is\(Weak::upgrade\(%s\.packet\),Some\)" % pk,
                                    r"!PendingPacket::fragment_acknowledged\(RefCell::borrow\(Weak::upgrade\(%s\.packet\)@Some\.0\),%s\.fragment_id\)" % (pk, pk)]],
                  construct="DataFrameEmitter::push in resend loop", why="an acknowledged or skipped fragment must not be transmitted again")
+        for loc, lab in sinks:
+            fl = show(b.operand_expr(b.node_at(loc)["args"][3]))
+            if fl != "true":
+                inst.violation(b.path, "resend push flag", "a retransmission is pushed with resend=%s: its frame would not track the fragment, so the ack could never mark it" % fl, at=b.span_at(loc))
         sinks2 = call_sites(b, "DataFrameEmitter::push", r"VecDeque::front\(arg1\.pending_queue\)")
+        for loc, lab in sinks2:
+            fl = show(b.operand_expr(b.node_at(loc)["args"][3]))
+            if fl != "VecDeque::front(arg1.pending_queue)@Some.0.resend":
+                inst.violation(b.path, "first-send push flag", "a first transmission is pushed with resend=%s instead of the entry's own flag" % fl, at=b.span_at(loc))
         fr = r"VecDeque::front\(arg1\.pending_queue\)@Some\.0\.fragment_ref"
         cx.guard(inst, b, sinks2, [[r"is\(Weak::upgrade\(%s\.packet\),Some\)" % fr,
                                     r"!PendingPacket::fragment_acknowledged\(RefCell::borrow\(Weak::upgrade\(%s\.packet\)@Some\.0\),%s\.fragment_id\)" % (fr, fr)]],
